@@ -5,4 +5,4 @@ for m in G03_inner_pad_to_align_removed:C05 G04_clone_limit_ge:C16 G04_clone_lim
   id=${m%%:*}; prop=${m##*:}
   python3 tools/mutate.py $id catalogue/$id.diff $prop --no-playback
 done
-tools/sweep.sh $(ls seeded | grep '^R2_')
+tools/sweep.sh $(ls seeded | grep -E "^R3_")
